@@ -67,6 +67,9 @@ theorem finish_branch (c : Cfg) (ar aq : Nat) (s : S) (r : Reason) (b : Base c a
   have e_dr : h.downReset = s.downReset := by subst hh; simp [sendHijack, orFlag]
   have e_dir : h.direct = true := by subst hh; simp [sendHijack]
   have e_ph : h.phase = s.phase := by subst hh; simp [sendHijack, orFlag]
+  have e_sr : h.setupRetry = false := by subst hh; simp [sendHijack, orFlag, hsr]
+  have e_ab : abandonRetry { h with direct := false, rs := none, retries := (rsReset c h).retries } =
+      { h with direct := false, rs := none, retries := (rsReset c h).retries } := abandonRetry_id e_sr
   by_cases hd : h.downReset = true
   · have : peTail c h true = (dsResetStream c h, some .End) := by
       unfold peTail; rw [if_pos hd]
@@ -80,7 +83,7 @@ theorem finish_branch (c : Cfg) (ar aq : Nat) (s : S) (r : Reason) (b : Base c a
         unfold peTail
         rw [if_neg hd, if_pos e_dir]
         simp only []
-        rw [if_neg (by simp [how]), if_neg (by rw [e_ph]; simp [hphase]), rsReset_retries_of_not_held c h e_held]
+        rw [e_ab, if_neg (by simp [how]), if_neg (by rw [e_ph]; simp [hphase]), rsReset_retries_of_not_held c h e_held]
       rw [this]
       have e_next : finishOf (({ h with direct := false, rs := none } : S), (none : Option Phase)) =
           { h with direct := false, rs := none, phase := .UpRecvHeader } := by
@@ -105,7 +108,7 @@ theorem finish_branch (c : Cfg) (ar aq : Nat) (s : S) (r : Reason) (b : Base c a
       unfold peTail
       rw [if_neg hd, if_pos e_dir]
       simp only []
-      rw [if_neg (by simp [how]), if_pos (by rw [e_ph]; exact hphase), rsReset_retries_of_not_held c h e_held]
+      rw [e_ab, if_neg (by simp [how]), if_pos (by rw [e_ph]; exact hphase), rsReset_retries_of_not_held c h e_held]
     rw [this]
     show Inv c ar aq (reenter { h with direct := false, rs := none } .UpFilter)
     apply tail_direct c ar aq h hb e_run e_cl how
